@@ -312,6 +312,9 @@ theorem source_revokePartitionAssignments : GeneratedSrc.revokePartitionAssignme
 theorem source_kcProcessEvent : GeneratedSrc.kcProcessEvent = ExpectedSrc.kcProcessEvent := by rfl
 theorem source_kcCheckConfig : GeneratedSrc.kcCheckConfig = ExpectedSrc.kcCheckConfig := by rfl
 
+/-! ### the request filed for the skipped range is merged by the tracker -/
+theorem source_addRecoveryRequest : GeneratedSrc.addRecoveryRequest = ExpectedSrc.addRecoveryRequest := by rfl
+
 /-! ### influence closure: the pinned functions, and every function of the repository that writes a struct field or package
 variable they read, are unchanged (digests regenerated from /repo on every run; a difference names the functions) -/
 theorem closure_unchanged : GeneratedClo.C06 = ExpectedClo.C06 := by rfl
